@@ -416,7 +416,11 @@ func c17Stepped(s c17Spec) (bind string, obs string, nres int, err error) {
 
 // end-to-end run through the public API with a synchronous sink
 func c17E2E(s c17Spec, expect int) (string, error) {
-	ss := streamsql.New(streamsql.WithDiscardLog())
+	// Output buffers larger than any generated row sequence: with the default configuration
+	// (WindowOutputSize 50, strategy "drop") the window discards its oldest undelivered result when
+	// the consumer goroutine lags by more than 50 results; that loss is counted (droppedCount) and is
+	// C19's subject. C17 assumes no overflow.
+	ss := streamsql.New(streamsql.WithDiscardLog(), streamsql.WithBufferSizes(1000, 1000, 1000))
 	if err := ss.Execute(s.sql); err != nil {
 		ss.Stop()
 		return "", fmt.Errorf("execute %q: %v", s.sql, err)
@@ -434,8 +438,8 @@ func c17E2E(s c17Spec, expect int) (string, error) {
 		ss.Emit(c17CopyRow(r.data))
 	}
 	count := func() int { mu.Lock(); defer mu.Unlock(); return len(ob) }
-	// wait for the expected number of results (max 3 s), then a quiet period to see extras
-	for i := 0; i < 1500 && count() < expect; i++ {
+	// wait for the expected number of results (max 10 s), then a quiet period to see extras
+	for i := 0; i < 5000 && count() < expect; i++ {
 		time.Sleep(2 * time.Millisecond)
 	}
 	last, stable := count(), 0
